@@ -190,11 +190,14 @@ type World struct {
 	epochBase []*GenesisDoc // genesis of each epoch (for replica re-execution)
 	epochAt   []int         // index into Blocks where each epoch starts
 
-	LastTime time.Time
-	lastRedo *BlockRecord
-	Trace    *Trace  // the trace being generated / replayed (read by C10)
-	Executed []*Step // steps executed so far
-	Replica  bool    // this world is a secondary replica (no statistics)
+	LastTime   time.Time
+	lastRedo   *BlockRecord
+	Aborted    bool // the run cannot go on for a reason that is another property's symptom
+	LastSimGas uint64
+	LastSimOK  bool
+	Trace      *Trace  // the trace being generated / replayed (read by C10)
+	Executed   []*Step // steps executed so far
+	Replica    bool    // this world is a secondary replica (no statistics)
 	// Committed: decoded snapshot per committed height of the current chain (last few)
 	Committed map[int64]*Snapshot
 
@@ -307,10 +310,12 @@ func (w *World) Exec(st *Step) bool {
 		w.execQuery(st)
 	case KICA:
 		w.execICA(st)
+	case KSim:
+		w.execSim(st)
 	default:
 		w.HarnessFail("unknown step kind %q", st.Kind)
 	}
-	return w.Viol == nil && len(w.Harness) == 0
+	return w.Viol == nil && len(w.Harness) == 0 && !w.Aborted
 }
 
 func (w *World) execBegin(st *Step) {
@@ -548,6 +553,24 @@ func (w *World) execTx(st *Step) {
 	}
 }
 
+// execSim is a client's gas estimation (Simulate): the messages are run by the
+// real handlers on a throw-away branch of the working state. It is a step of
+// the trace so that generation and replay call into the code under test in
+// exactly the same order (hidden state in keepers would otherwise make a
+// violation found while generating unreproducible).
+func (w *World) execSim(st *Step) {
+	w.LastSimGas, w.LastSimOK = 0, false
+	if st.Tx == nil {
+		return
+	}
+	msgs, sigFail, err := decodeTx(st.Tx)
+	if err != nil || sigFail {
+		return
+	}
+	w.LastSimGas, w.LastSimOK = w.Chain.DryRunGas(msgs)
+	w.Probe("gas_estimations")
+}
+
 func (w *World) execCommit(st *Step) {
 	if !w.inBlock {
 		return
@@ -575,7 +598,19 @@ func (w *World) execCommit(st *Step) {
 		}
 	}
 	w.Chain.EndBlock()
-	hash := w.Chain.Commit()
+	hash, perr := w.safeCommit()
+	if perr != "" {
+		// The store refuses to commit (e.g. IAVL: "version was already saved to
+		// different hash" when a block replayed after a torn commit produced
+		// another state). That is a C10 symptom; only the C10 checker reports it.
+		if h, ok := w.Checker.(interface{ CommitPanic(*World, string) }); ok {
+			h.CommitPanic(w, perr)
+		} else {
+			w.Aborted = true
+			w.Probe("run_aborted_commit_refused")
+		}
+		return
+	}
 	w.inBlock = false
 	w.curBlock.AppHash = hash
 	w.Blocks = append(w.Blocks, w.curBlock)
@@ -592,6 +627,18 @@ func (w *World) execCommit(st *Step) {
 	if w.Checker != nil {
 		w.Checker.AfterCommit(w, blk)
 	}
+}
+
+func (w *World) safeCommit() (hash []byte, perr string) {
+	defer func() {
+		if r := recover(); r != nil {
+			if IsCrash(r) {
+				panic(r)
+			}
+			perr = fmt.Sprint(r)
+		}
+	}()
+	return w.Chain.Commit(), ""
 }
 
 // tornCommit arms the disk, runs EndBlock+Commit and reports whether the crash fired.
